@@ -78,6 +78,9 @@ impl SO3StateSpace {
         })
     }
 
+    /// Angular tolerance (radians) of the containment test, see `satisfies_bounds`.
+    const BOUNDS_TOLERANCE: f64 = 1e-7;
+
     /// Returns the maximum possible distance in this space, which is always 0.5*PI.
     pub fn get_maximum_extent(&self) -> f64 {
         0.5 * PI
@@ -173,9 +176,18 @@ impl StateSpace for SO3StateSpace {
             return;
         }
 
-        let t = *max_angle / actual_distance;
+        let mut t = *max_angle / actual_distance;
         let original_state = state.clone();
-        self.interpolate(center_rotation, &original_state, t, state);
+        // Interpolation is distance-proportional only up to rounding (and, in its normalised-LERP
+        // branch, up to about 1e-6): correct the parameter until the result is inside the cone.
+        for _ in 0..4 {
+            self.interpolate(center_rotation, &original_state, t, state);
+            let reached = self.distance(center_rotation, state);
+            if reached <= *max_angle || reached <= 0.0 {
+                break;
+            }
+            t *= *max_angle / reached;
+        }
     }
 
     /// Checks if a state is within the defined "cone of freedom" bounds.
@@ -183,7 +195,10 @@ impl StateSpace for SO3StateSpace {
         let (center_rotation, max_angle) = &self.bounds;
         let deviation = self.distance(center_rotation, state);
 
-        deviation <= *max_angle
+        // `distance` goes through acos, which resolves angles near zero only to about 1e-8, and
+        // re-normalising a quaternion moves its last bits: a state numerically on the boundary
+        // of the cone (or the centre of a tiny cone) must not be rejected.
+        deviation <= *max_angle + Self::BOUNDS_TOLERANCE
     }
 
     /// Generates a uniformly random rotation within the defined bounds.
